@@ -28,9 +28,25 @@ Churn(a, i, n, rt, mode) ==
 Scenario(a, b, rt, n, mode) ==
   <<Step("make", 1, 0, a, rt), Step("make", 2, 0, b, "int"), Step("transform", 1, 2, a, b), Step("drop", 1, 0, "", ""), Step("gc", 0, 0, "", "")>>
   \o Churn(a, 1, n, rt, mode)
+\* a CRS named by an authority other than EPSG ("ESRI:54009"), asked for again and again in different letter cases (the worker varies the
+\* spelling with the step number): every object must have the string form, hash and token of its own spelling, whatever was built before
+AuthScenario(a, b, n) ==
+  <<Step("make", 2, 0, b, "int")>> \o
+  [i \in 1..(4 * n) |-> IF i % 4 = 1 THEN Step("make", 3, 0, a, "authstr") ELSE IF i % 4 = 2 THEN Step("transform", 3, 2, a, "?")     \* 4 steps per round: the spelling
+                          ELSE IF i % 4 = 3 THEN Step("drop", 3, 0, "", "") ELSE Step("gc", 0, 0, "", "")]                                   \* (step number mod 3) cycles
+\* cache pressure far beyond any plausible bound: several hundred distinct specifications (UTM zones north and south by three routes) built,
+\* used in a transformer and dropped, one after the other
+ZoneCls(i) == "c32" \o (IF (i \div 60) % 2 = 0 THEN "6" ELSE "7") \o (IF (i % 60) + 1 < 10 THEN "0" ELSE "") \o ToString((i % 60) + 1)
+LongScenario(a, b, rt, n) ==
+  <<Step("make", 1, 0, a, rt), Step("make", 2, 0, b, "int"), Step("transform", 1, 2, a, b), Step("drop", 1, 0, "", ""), Step("gc", 0, 0, "", "")>> \o
+  [i \in 1..(3 * n) |-> LET j == (i - 1) \div 3 IN
+     IF i % 3 = 1 THEN Step("make", 3, 0, ZoneCls(j), <<"int", "wkt", "obj_epsg">>[((j \div 120) % 3) + 1]) ELSE IF i % 3 = 2 THEN Step("transform", 3, 2, ZoneCls(j), "?") ELSE Step("drop", 3, 0, "", "")]
 VARIABLE c
-Init == c \in {[op |-> "chunk", a |-> a, b |-> b] : a \in Classes, b \in Classes}
-Next == c.op = "chunk" /\ \E rt \in {"wkt", "obj_epsg", "dict", "obj_dict", "jsonstr", "projdict"}, n \in Ns, mode \in {"cycle", "same"} :
+Init == c \in {[op |-> "chunk", a |-> a, b |-> b] : a \in Classes, b \in Classes} \cup {[op |-> "auth", a |-> a, b |-> b] : a \in {"e54009", "e54030"}, b \in {"c4326", "c3857"}}
+             \cup {[op |-> "long", a |-> a, b |-> "c4326"] : a \in {"c3577", "c32601"}}
+Next == \/ c.op = "auth" /\ \E n \in {4, 9} : c' = [hist |-> AuthScenario(c.a, c.b, n), whatif |-> TRUE, op |-> "scenario", mode |-> "auth", rt |-> "authstr"] /\ Emit(c')
+        \/ c.op = "long" /\ \E rt \in {"wkt", "obj_epsg", "int"} : c' = [hist |-> LongScenario(c.a, c.b, rt, 400), whatif |-> TRUE, op |-> "scenario", mode |-> "long", rt |-> rt] /\ Emit(c')
+        \/ c.op = "chunk" /\ \E rt \in {"wkt", "obj_epsg", "dict", "obj_dict", "jsonstr", "projdict"}, n \in Ns, mode \in {"cycle", "same"} :
            (rt = "projdict" => c.a \in PClasses) /\
            c' = [hist |-> Scenario(c.a, c.b, rt, n, mode), whatif |-> TRUE, op |-> "scenario", mode |-> mode, rt |-> rt] /\ Emit(c')
 Spec == Init /\ [][Next]_c
